@@ -6,6 +6,7 @@ import json, os, re, shutil, subprocess, sys, time
 
 RES = sys.argv[1]
 ONLY = sys.argv[2:]
+LETTERS = os.environ.get("LETTERS", "ab").split(",") if "," in os.environ.get("LETTERS", "") else list(os.environ.get("LETTERS", "ab"))
 WT = "/tmp/seedverify_wt"
 OUT = "/verif/seeded"
 
@@ -34,7 +35,7 @@ for pid in sorted(os.listdir(RES)):
         continue
     d = os.path.join(RES, pid)
     readme = open(os.path.join(d, "README.md")).read() if os.path.exists(os.path.join(d, "README.md")) else ""
-    for m in ("a", "b"):
+    for m in LETTERS:
         patch = os.path.join(d, "%s.patch.diff" % m)
         demo = os.path.join(d, "%s.demo.rs" % m)
         if not (os.path.exists(patch) and os.path.exists(demo)):
